@@ -129,6 +129,7 @@ func fromHintMap(v ssa.Value, depth int) bool {
 }
 
 func runEPANIC(c *Ctx, r *Report, reach map[*ssa.Function]bool, scope string) {
+	r.MovedRows("E-PANIC", frozenAsserts)
 	r.Rule("E-PANIC", "no explicit panic, no recover, and no single-result type assertion on a value other than a hint-map element, in any function reachable from the entry points (one obligation per reachable package, plus one per site found)", 3)
 	byPkg := map[string]int{}
 	var fs []*ssa.Function
@@ -510,6 +511,7 @@ var frozenMake = map[string]string{
 }
 
 func runEMAKE(c *Ctx, r *Report, reach map[*ssa.Function]bool, scope string) {
+	r.MovedRows("E-MAKE", frozenMake)
 	r.Rule("E-MAKE", "a make() whose length or capacity is computed with a subtraction of non-constants is dominated by a test that makes it non-negative, or sits in the frozen table with its reason; one obligation per such site among the functions reachable from the entry points", 2)
 	var fs []*ssa.Function
 	for f := range reach {
@@ -622,6 +624,7 @@ func boundedBelow(d ssa.Value, b *ssa.BasicBlock, facts map[ssa.Value]*intFact) 
 }
 
 func runEDIV(c *Ctx, r *Report, reach map[*ssa.Function]bool, scope string) {
+	r.MovedRows("E-DIV", frozenDiv)
 	r.Rule("E-DIV", "an integer division or remainder whose divisor is not a non-zero constant is dominated by a test excluding zero, or the divisor is structurally positive (sum/product of positive terms, len()+k, ...), or sits in the frozen table with its reason; functions reachable from the entry points", 5)
 	var fs []*ssa.Function
 	for f := range reach {
